@@ -667,6 +667,20 @@ def run(ctx: Ctx) -> None:
     by = collections.Counter((v.clause, v.source) for v in ctx.violations)
     ctx.extra["violations_by_clause"] = {f"{c}/{s}": n for (c, s), n in sorted(by.items())}
     ctx.log(f"violations by clause/source: {ctx.extra['violations_by_clause']}")
+    # one representative per clause and source first (the runner stores replays for the first few only);
+    # among the recorded executions the shortest one is the representative
+    reps, rest, seen = [], [], set()
+    order = sorted(range(len(ctx.violations)),
+                   key=lambda i: len((ctx.violations[i].detail or {}).get("trace", {}).get("events", [])) or 10 ** 6)
+    for i in order:
+        v = ctx.violations[i]
+        if (v.clause, v.source) in seen:
+            rest.append(i)
+        else:
+            seen.add((v.clause, v.source))
+            reps.append(i)
+    ctx.violations[:] = [ctx.violations[i] for i in sorted(reps, key=lambda i: (ctx.violations[i].clause, ctx.violations[i].source))] + \
+                        [ctx.violations[i] for i in sorted(rest)]
     ctx.evaluations = ctx.traces
     ctx.extra["replay_action_counts"] = dict(ctx.action_cover)
     loop.uninstall()
